@@ -226,11 +226,11 @@ Proof. split; vm_compute; reflexivity. Qed.
 
 (* ---------------------------------------------------------------- CSSUnknownRule *)
 (* the handlers of CSSUnknownRule dispatch on token TYPE, the counters of _tokensupto2 on token
-   VALUE; `usane` says the two views agree on a token (always true for tokenizer output except
-   an IDENT spelled with an escape whose value is a bracket), and that the token is none of
-   EOF / INVALID / ATKEYWORD (nested at-keywords: open finding C04-nested-atkeyword-in-unknown) *)
+   VALUE; `usane` says the two views agree on a token (brackets are CHAR tokens, a FUNCTION opens
+   a parenthesis: always true for tokenizer output) and that the token is neither EOF nor INVALID
+   (an unterminated string: not balanced)                                                       *)
 Definition usane (t : tok) : bool :=
-  negb (tyis t "EOF") && negb (tyis t "INVALID") && negb (tyis t "ATKEYWORD") &&
+  negb (tyis t "EOF") && negb (tyis t "INVALID") &&
   match bclass_of t with
   | BAtom => true
   | BOpen 2%nat => tyis t "CHAR" || tyis t "FUNCTION"
@@ -250,13 +250,17 @@ Ltac crush_eqs :=
            destruct (eqs a (s k)) eqn:E; [apply eqs_true in E; subst a; cbn in *|]; try discriminate
          end.
 
+Definition mdD : mode := mode_of FDefault None.
+
 Lemma u_atom t nest wf seq r :
-  usane t = true -> bclass_of t = BAtom -> (nest <> [] \/ eqs (val t) (s ";") = false) ->
+  usane t = true -> bclass_of t = BAtom -> (nest <> [] \/ isendtok mdD t = false) ->
   unk_loop (mkU nest false wf seq) (t :: r) 0 = unk_loop (mkU nest false wf (UTok t :: seq)) r 0.
 Proof.
-  destruct t as [y rw v l cl]. unfold usane, bclass_of, tyis, is_function. cbn [unk_loop ty val].
+  destruct t as [y rw v l cl]. unfold isendtok, usane, bclass_of, tyis, is_function, is_ident. cbn [unk_loop ty val].
   unfold tyis, u_char, u_plain, opening_of. cbn [ty val u_eof u_nest u_wf u_seq]. cbv zeta.
   intros Hs Hb Hn.
+  destruct (eqs y (s "IDENT")) eqn:Y0.
+  { apply eqs_true in Y0; subst y. reflexivity. }
   destruct (eqs v (s "{")) eqn:V1; [discriminate|].
   destruct (eqs v (s "}")) eqn:V2; [discriminate|].
   destruct (eqs v (s "[")) eqn:V3; [discriminate|].
@@ -266,12 +270,12 @@ Proof.
   destruct (eqs v (s ")")) eqn:V6; [discriminate|].
   destruct (eqs y (s "EOF")) eqn:Y2; [discriminate|].
   destruct (eqs y (s "INVALID")) eqn:Y3; [discriminate|].
-  destruct (eqs y (s "ATKEYWORD")) eqn:Y4; [discriminate|].
   cbn [orb andb negb].
   destruct (eqs y (s "CHAR")) eqn:Y5.
   - destruct Hn as [Hn|Hn].
     + destruct nest; [congruence|]. now rewrite andb_false_r.
-    + rewrite Hn. reflexivity.
+    + destruct (eqs v (s ";")) eqn:V7; [|reflexivity].
+      apply eqs_true in V7; subst v. vm_compute in Hn. discriminate Hn.
   - destruct (eqs y (s "COMMENT")) eqn:Y6; [now rewrite andb_true_r|reflexivity].
 Qed.
 
@@ -282,9 +286,10 @@ Lemma u_open t k nest wf seq r :
   unk_loop (mkU nest false wf seq) (t :: r) 0
   = unk_loop (mkU (opener_str k :: nest) false wf (UTok t :: seq)) r 0.
 Proof.
-  destruct t as [y rw v l cl]. unfold usane, bclass_of, tyis, is_function. cbn [unk_loop ty val].
+  destruct t as [y rw v l cl]. unfold usane, bclass_of, tyis, is_function, is_ident. cbn [unk_loop ty val].
   unfold tyis, u_char, u_plain, opening_of. cbn [ty val u_eof u_nest u_wf u_seq]. cbv zeta.
   intros Hs Hb.
+  destruct (eqs y (s "IDENT")) eqn:Y0; [discriminate|].
   destruct (eqs y (s "CHAR")) eqn:Y5; destruct (eqs y (s "FUNCTION")) eqn:Y1;
     try (apply eqs_true in Y5; subst y; discriminate Y1).
   all: destruct (eqs v (s "{")) eqn:V1;
@@ -305,9 +310,10 @@ Lemma u_close t k nest wf seq r :
   unk_loop (mkU (opener_str k :: nest) false wf seq) (t :: r) 0
   = unk_loop (mkU nest (match k, nest with 0%nat, [] => true | _, _ => false end) wf (UTok t :: seq)) r 0.
 Proof.
-  destruct t as [y rw v l cl]. unfold usane, bclass_of, tyis, is_function. cbn [unk_loop ty val].
+  destruct t as [y rw v l cl]. unfold usane, bclass_of, tyis, is_function, is_ident. cbn [unk_loop ty val].
   unfold tyis, u_char, u_plain, opening_of. cbn [ty val u_eof u_nest u_wf u_seq]. cbv zeta.
   intros Hs Hb.
+  destruct (eqs y (s "IDENT")) eqn:Y0; [discriminate|].
   destruct (eqs y (s "CHAR")) eqn:Y5; destruct (eqs y (s "FUNCTION")) eqn:Y1;
     try (apply eqs_true in Y5; subst y; discriminate Y1).
   all: destruct (eqs v (s "{")) eqn:V1; [discriminate|].
@@ -322,18 +328,12 @@ Proof.
   all: apply eqs_true in V6; subst v; inversion Hb; subst k; cbn in Hs |- *; destruct nest; fin Hs.
 Qed.
 
-Definition mdD : mode := mode_of FDefault None.
 Definition all_usane (x : list tok) : Prop := Forall (fun t => usane t = true) x.
-
-Lemma isend_semicolon t : isendtok mdD t = false -> eqs (val t) (s ";") = false.
-Proof.
-  unfold isendtok. destruct (eqs (val t) (s ";")) eqn:E; [|reflexivity].
-  apply eqs_true in E. rewrite E. vm_compute. intros H; discriminate H.
-Qed.
 
 Lemma bclose0_end t : bclass_of t = BClose 0 -> isendtok mdD t = true.
 Proof.
-  unfold bclass_of, isendtok. destruct t as [y rw v l cl]; cbn [val ty]. cbv zeta.
+  unfold bclass_of, isendtok, is_ident. destruct t as [y rw v l cl]; cbn [val ty]. cbv zeta.
+  destruct (eqs y (s "IDENT")); [discriminate|].
   destruct (eqs v (s "{")); [discriminate|].
   destruct (eqs v (s "}")) eqn:E; [apply eqs_true in E; subst v; intros _; reflexivity|].
   destruct (eqs v (s "[")); [discriminate|]. destruct (eqs v (s "]")); [discriminate|].
@@ -369,7 +369,7 @@ Proof.
   induction 1 as [|t x Ht He Hn Hx IH|o b c x k Ho Hc Heo Hec Hb Hn Hx IH]; intros Hu wf seq rest.
   - reflexivity.
   - inversion Hu as [|? ? Hut Hux]; subst. cbn [app].
-    rewrite (u_atom _ _ _ _ _ Hut Ht (or_intror (isend_semicolon _ Hn))), (IH Hux), rev_step. reflexivity.
+    rewrite (u_atom _ _ _ _ _ Hut Ht (or_intror Hn)), (IH Hux), rev_step. reflexivity.
   - inversion Hu as [|? ? Huo Hur]; subst. apply Forall_app in Hur as [Hub Hur].
     inversion Hur as [|? ? Huc Hux]; subst.
     cbn [app]. rewrite (u_open _ _ _ _ _ _ Huo Ho). rewrite <- app_assoc. cbn [app].
@@ -411,14 +411,15 @@ Proof.
   rewrite <- !app_assoc, ?rev_involutive. reflexivity.
 Qed.
 
-(* non-vacuity + the open finding: '@unk (f) [g] {h {i}}' is preserved, '@unk x @y {}' is dropped *)
+(* non-vacuity: '@unk (f) [g] {h {i}}' and (since the fix) '@unk x @y {}' are preserved *)
 Definition unk_good := [T "ATKEYWORD" "@unk"; sp; c_ "("; T "IDENT" "f"; c_ ")"; c_ "["; T "IDENT" "g"; c_ "]";
                         c_ "{"; T "IDENT" "h"; c_ "{"; T "IDENT" "i"; c_ "}"; c_ "}"].
 Definition unk_nested_at := [T "ATKEYWORD" "@unk"; sp; T "IDENT" "x"; sp; T "ATKEYWORD" "@y"; sp; c_ "{"; c_ "}"].
 
 Lemma unknown_rule_examples :
   unknown_rule unk_good = Some (T "ATKEYWORD" "@unk", map UTok (tl unk_good))
-  /\ JunkStmt cls_sheet KUnknown unk_nested_at /\ unknown_rule unk_nested_at = None.
+  /\ JunkStmt cls_sheet KUnknown unk_nested_at
+  /\ unknown_rule unk_nested_at = Some (T "ATKEYWORD" "@unk", map UTok (tl unk_nested_at)).
 Proof.
   split; [vm_compute; reflexivity|]. split; [|vm_compute; reflexivity].
   exists (T "ATKEYWORD" "@unk"), (tl unk_nested_at). repeat split.
